@@ -230,3 +230,67 @@ Section DescOps.
         unfold desc_op_requests. rewrite Eps. norm_url. reflexivity.
   Qed.
 End DescOps.
+
+(* ---------- any history of calls on one Repository value ---------- *)
+
+(* one call: a reference-taking operation on a reference string, or a descriptor-driven one *)
+Inductive call :=
+| CRef (op : refop) (s d : str)
+| CDesc (op : descop) (d a1 num : str).
+
+Section Sessions.
+  Variable avail : str -> bool.
+  Variable vr : str -> bool.
+  Hypothesis vr_clean : forall reg, vr reg = true -> reg_clean reg = true.
+  Variable plain : bool.
+  Variables breg brepo : str.
+
+  Definition call_requests (c : call) : list (str * str) :=
+    match c with
+    | CRef op s d => match op_requests avail vr op plain breg brepo s d with Some l => l | None => [] end
+    | CDesc op d a1 num => desc_op_requests op plain (mkRef breg brepo []) d a1 num
+    end.
+  Definition session_requests (cs : list call) : list (str * str) := flat_map call_requests cs.
+
+  (* what the caller must respect: descriptors carry valid digests, strings are byte strings, a
+     mount names a valid source repository; reference strings are arbitrary *)
+  Definition call_ok (c : call) : Prop :=
+    match c with
+    | CRef _ _ d => valid_digest avail d = true
+    | CDesc op d a1 num => valid_digest avail d = true /\ bytes a1 /\ bytes num /\ (op = DMount -> valid_repository a1 = true)
+    end.
+
+  (* the request goes to the base registry (authority exactly its host, no user-info), its path is
+     /v2/<base repository>/<segments> and it has no fragment *)
+  Definition in_base_slot (u : str) : Prop :=
+    exists segs q,
+      url_split u = Some (mkParts (scheme plain) (host_of breg) (path_of brepo segs) q None) /\
+      split_on c_slash (path_of brepo segs) = [[]; b "v2"] ++ split_on c_slash brepo ++ segs /\
+      contains c_at (host_of breg) = false.
+
+  Hypothesis Hbreg : vr breg = true.
+  Hypothesis Hbrepo : valid_repository brepo = true.
+
+  Lemma call_in_base c : call_ok c -> Forall (fun mu => in_base_slot (snd mu)) (call_requests c).
+  Proof.
+    destruct c as [op s d | op d a1 num]; simpl.
+    - intro Hd. destruct (op_requests avail vr op plain breg brepo s d) as [l|] eqn:E; [|constructor].
+      assert (Hok : ok_registry vr breg) by (split; [exact Hbreg | apply reg_clean_no; [reflexivity | now apply vr_clean]]).
+      destruct (op_requests_exact_paths avail vr op plain breg brepo s d l vr_clean Hok Hbrepo Hd E) as (r & _ & F).
+      eapply Forall_impl; [|exact F]. intros mu (seg & x & _ & _ & (U & S & A & _)).
+      exists [seg; x], None. cbn [r_registry r_repository r_reference] in U, S, A.
+      rewrite (path_of_two brepo seg x). auto.
+    - intros (Hd & Ha & Hn & Hm).
+      destruct (desc_op_requests_exact avail vr vr_clean op plain breg brepo d a1 num Hbreg Hbrepo Hd Ha Hn Hm)
+        as (u & q & -> & U & S & A & _).
+      constructor; [|constructor]. exists (desc_op_slot op d), q. auto.
+  Qed.
+
+  (* every request of every history of calls on the Repository stays in the base repository *)
+  Theorem session_in_base cs :
+    Forall call_ok cs -> Forall (fun mu => in_base_slot (snd mu)) (session_requests cs).
+  Proof.
+    induction 1 as [|c cs Hc F IH]; [constructor|].
+    unfold session_requests. simpl. apply Forall_app. split; [now apply call_in_base | exact IH].
+  Qed.
+End Sessions.
